@@ -68,6 +68,8 @@ pub fn elementwise(r: &dyn Runner, tier: Tier, st: &St, out: &mut Vec<Edge>) {
     out.push(Edge::Clear(Api::Erased));
     out.push(Edge::Clear(Api::Typed));
     out.push(Edge::DropVec);
+    // values supplied by USER-DEFINED implementors of the value traits (type-erased copy-on-write handle, statically typed oversized carrier)
+    for op in 0..crate::exec_handles::N_USER_OPS { for i in 0..=len as u8 { out.push(Edge::UserValue { op, i }); } }
     // moving the vector value (for inline backends the storage moves too): nothing may depend on where the vector lives
     for slot in 0..2u8 { for then in [0u8, 1, 3, 5, 10] { out.push(Edge::Relocate { slot, then }); } }
     for api in [Api::Erased, Api::Typed] {
@@ -160,6 +162,7 @@ pub fn ranges(r: &dyn Runner, tier: Tier, st: &St, with_splice: bool, out: &mut 
             }
         }
     }
+    if with_splice { for op in [4u8, 8] { for i in 0..=len as u8 { out.push(Edge::UserValue { op, i }); } } }
     for api in [Api::Erased, Api::Typed] {
         for o in [OverflowRange::EndInclMax, OverflowRange::StartExclMax, OverflowRange::StartExclMaxEndIncl] {
             out.push(Edge::DrainOverflow(api, o));
@@ -252,6 +255,8 @@ pub fn clones(r: &dyn Runner, _tier: Tier, _st: &St, out: &mut Vec<Edge>) {
 
 /// lazy clone protocol (C09)
 pub fn lazies(r: &dyn Runner, tier: Tier, st: &St, out: &mut Vec<Edge>) {
+    // lazy clones of USER-DEFINED cloneable values work with every constraint set (the clone function travels with the value)
+    for op in [5u8, 9, 10] { out.push(Edge::UserValue { op, i: 0 }); }
     if !r.cloneable() { return; }
     let len = st.len as usize;
     let maxd = 3;
